@@ -102,6 +102,8 @@ def callee_kind(c):
         return None
     if last in ("::abs", "::pow") and recv in ("f32", "f64"):
         return None
+    if last == "::repeat" and ("iter::" in c or "iter::sources" in c):
+        return None                     # std::iter::repeat(x) builds a lazy iterator, it does not allocate x items
     for suffix, kind in TABLE["patterns"]:
         if suffix.startswith("::"):
             if c.endswith(suffix) or (suffix + "::<") in c:
